@@ -69,6 +69,8 @@ func checkC20(c *core.Check) {
 	round := 0
 	opSec := map[string]string{}  // "<pkg> <METHOD> <template>" -> required scheme
 	roundPkg := map[int]string{} // round -> package
+	rawSpec := map[int]string{}  // round -> path of the spec-file route
+	specLen := map[int]int{}     // round -> length of the spec file
 	rounds := []struct{ g, procs int }{{16, 1}, {16, 4}, {64, 16}, {32, 4}}
 	if thorough {
 		rounds = nil
@@ -107,10 +109,16 @@ func checkC20(c *core.Check) {
 			round++
 			roundPkg[round] = id
 			// 3 middlewares registered one by one leave the slice with spare capacity (len 3, cap 4); 2 do not
+			// requests that match no operation are served concurrently as well: unrouted paths (with and without a
+			// NotFoundHandler installed) and the spec-file route
+			specPath := base.NF() + "/" + a.SpecName
+			specLen[round] = len(a.Render())
 			groups = append(groups, driver.Group{Pkg: id, Kind: "concurrent", Base: base.NF(),
-				API: driver.APIConfig{Mw: 2 + ri%2, NotFound: true, Auth: map[string]bool{"A": true, "B": true}, Schemes: schemeInfos(*a)},
+				API: driver.APIConfig{Mw: 2 + ri%2, NotFound: ri%4 < 2, Spec: true, Auth: map[string]bool{"A": true, "B": true}, Schemes: schemeInfos(*a)},
 				Conc: &driver.ConcurrentConfig{Goroutines: rd.g, Calls: 4, Procs: rd.procs, Seed: rng.Int63(), Round: round,
-					Creds: map[string]string{"Authorization": "Bearer valid-A", "X-Key-B": "valid-B"}}})
+					Creds:    map[string]string{"Authorization": "Bearer valid-A", "X-Key-B": "valid-B"},
+					RawPaths: []string{base.NF() + "/no/such/route", specPath, "/elsewhere", base.NF() + "/no-such", specPath + "/x"}}})
+			rawSpec[round] = specPath
 		}
 	}
 	sc, err := core.BuildScratch(jobs, true)
@@ -190,6 +198,16 @@ func checkC20(c *core.Check) {
 			add(map[string]any{"ev": "Parse", "case": cid, "ok": ok, "params": av("params")})
 		case "Respond":
 			add(map[string]any{"ev": "Respond", "case": cid, "type": e["type"], "value": av("value")})
+		case "Raw":
+			var rd int
+			fmt.Sscanf(cid, "r%d", &rd)
+			want, wantLen := 404, -1
+			if p, _ := e["path"].(string); p == rawSpec[rd] {
+				want, wantLen = 200, specLen[rd]
+			}
+			bl, _ := e["bodyLen"].(float64)
+			p, _ := e["panic"].(string)
+			add(map[string]any{"ev": "Raw", "case": cid, "status": e["status"], "want": want, "writes": e["writes"], "bodyOK": wantLen < 0 || int(bl) == wantLen, "panic": trunc(p, 200)})
 		case "Return":
 			ok, _ := e["ok"].(bool)
 			p, _ := e["panic"].(string)
@@ -211,7 +229,7 @@ func checkC20(c *core.Check) {
 	c.Add("distinct_nontrivial", int64(jr.Nontriv))
 	c.Cov["race_reports"] = races
 	c.Cov["exhaustive"] = false
-	c.Cov["rule"] = "TLC (Concurrent) explores every interleaving of 4 requests through Call -> Chain -> Auth -> Parse -> Respond -> Return and checks isolation and that shared state (scratch values, the backing array of API.Middlewares) is only read; on the code side rounds of 16-64 goroutines x 4 calls drive one API value and one Client value of packed wire operations (parameters, JSON and raw bodies, a third each secured by a bearer / an apiKey scheme / nothing, 2 or 3 middlewares registered by append so that the slice has spare capacity) with per-call unique leaves and credentials, under GOMAXPROCS 1/4/16 and with yields in the call-backs; the interleaved linearized log is validated by TLC (Trace_Concurrent): every event is a step of its own request's machine, the authenticator that runs is the one of the request's operation with the request's credential, parsed = sent and returned = responded per request; the race detector's reports are counted; non-trivial = completed calls"
+	c.Cov["rule"] = "TLC (Concurrent) explores every interleaving of 4 requests through Call -> Chain -> Auth -> Parse -> Respond -> Return and checks isolation and that shared state (scratch values, the backing array of API.Middlewares) is only read; on the code side rounds of 16-64 goroutines x 4 calls drive one API value and one Client value of packed wire operations (parameters, JSON and raw bodies, a third each secured by a bearer / an apiKey scheme / nothing, 2 or 3 middlewares registered by append so that the slice has spare capacity) with per-call unique leaves and credentials; next to every client call one raw GET that matches no operation (unrouted paths with and without a NotFoundHandler, the spec-file route) is handed to ServeHTTP, under GOMAXPROCS 1/4/16 and with yields in the call-backs; the interleaved linearized log is validated by TLC (Trace_Concurrent): every event is a step of its own request's machine, the authenticator that runs is the one of the request's operation with the request's credential, parsed = sent and returned = responded per request; the race detector's reports are counted; non-trivial = completed calls"
 	c.Cov["bounds"] = map[string]any{"rounds": len(kept), "operations": len(good)}
 	for cid, ev := range info {
 		if len(ev) > 5 {
